@@ -69,10 +69,10 @@ def coq_obligation(results, log=print, excused=()):
     """write build/ApiMatrixGen.v (tables + this run's results) and check run_ok with coqc"""
     gnames = list(am.GROUPS); wd = tempfile.mkdtemp(prefix="apigen_", dir=vlib.BUILD)
     def s(x): return '"' + x.replace('"', "'").replace("\\", "/") + '"'
-    need = {"mut": "NeedMut", "own": "NeedOwn", "rot": "NeedRot", "tra": "NeedTra", "norm": "NeedNorm"}
+    need = {"mutX": "NeedMutX", "mutW": "NeedMutW", "bin": "NeedBin", "own": "NeedOwn", "rot": "NeedRot", "tra": "NeedTra", "norm": "NeedNorm"}
     L = ["(* regenerated on every run by tools/c19.py: do not edit *)", "From Coq Require Import List Bool Arith String.", "From Manif Require Import ApiMatrix.", "Import ListNotations.", "Open Scope string_scope.",
          "Definition entries : list entry := ["]
-    L.append(";\n".join("  mkEntry %d %s [%s]" % (i, s(en[0]), "; ".join(need[n] for n in en[1].split())) for i, en in enumerate(am.ENTRIES)) + "].")
+    L.append(";\n".join("  mkEntry %d %s [%s]" % (i, s(en[0]), "; ".join(need[n] for n in am.needs_of(en) if n != "same")) for i, en in enumerate(am.ENTRIES)) + "].")
     L.append("Definition groups : list grp := [")
     L.append(";\n".join("  mkGrp %d %s %s %s %s" % (k, s(g), *[str(am.GROUPS[g][1][p]).lower() for p in ("rot", "tra", "norm")]) for k, g in enumerate(gnames)) + "].")
     L.append("Definition results : list (cell * bool) := [")
